@@ -1,6 +1,6 @@
 """C06 — ZixTree (AVL with parent pointers): balanced sorted (multi)set with stable iterators.
 
-Case = one line: `d0|d1 op op ...` (see ocaml/drv_c06.ml).  Identities are the serial numbers of
+Case = one line: `d0|d1[z] op op ...` (see ocaml/drv_c06.ml; z = the C driver stores one key-0 element as NULL).  Identities are the serial numbers of
 the insert calls, so every case is self-contained and any sub-sequence of a case is a case."""
 import os
 
@@ -9,7 +9,10 @@ import vlib
 PROPS = "Properties_C06"
 RULE = ("seeded generator of operation histories (interleaved insert/remove/find/iterator ops, both duplicate "
         "policies, small key universes so that equal keys occur, ascending/descending/zigzag/Fibonacci-tree "
-        "builders that force every rotation case of insertion and multi-rotation removals, allocation failures); "
+        "builders that force every rotation case of insertion and multi-rotation removals, allocation failures); about "
+        "half of the histories that insert key 0 run in NULL-element mode (policy d?z: the C driver stores that element "
+        "as the NULL pointer - elements are opaque void* - and it is found, dereferenced, removed incl. as the last "
+        "element, or still present at zix_tree_free), plus every history of length <= 4 in that mode; "
         "every history of length <= 4 (quick) / <= 5 (thorough) over a 9-letter op alphabet, both policies; distinct case strings with at "
         "least one insert and one remove counted as non-trivial")
 ASSUMPTIONS = [
@@ -252,14 +255,19 @@ def gen_fib(r, h, flip, dup):
     return s.line()
 
 
-def exhaustive(maxlen):
+def exhaustive(maxlen, null=False):
+    """null=True: the NULL-element variants (policy d0z/d1z, smallest key 0 = the element stored as NULL pointer)"""
     alpha = ["i1", "i2", "i3", "i2", "r0", "r1", "r2", "r3", "f2"]
     alpha = list(dict.fromkeys(alpha)) + ["I2"]
+    pols = ("d0", "d1")
+    if null:
+        alpha = ["i0" if a == "i1" else a for a in alpha]
+        pols = ("d0z", "d1z")
     out = []
 
     def rec(prefix, depth):
         if prefix:
-            for d in ("d0", "d1"):
+            for d in pols:
                 out.append(d + " " + " ".join(prefix))
         if depth == maxlen:
             return
@@ -269,6 +277,18 @@ def exhaustive(maxlen):
                 continue
             rec(prefix + [a], depth + 1)
     rec([], 0)
+    return out
+
+
+def nullify(r, cases, p=0.5):
+    """NULL-element mode for a fraction of the generated histories: elements are opaque void* and NULL is a legitimate
+    one, so the C driver stores the first live key-0 element as the NULL pointer (models unchanged)"""
+    out = []
+    for c in cases:
+        t = c.split(" ", 1)
+        if r.random() < p and len(t) == 2 and any(x in ("i0", "I0") for x in t[1].split()):
+            c = t[0] + "z " + t[1]
+        out.append(c)
     return out
 
 
@@ -300,14 +320,16 @@ def gen(ctx, seed, tier):
     for _ in range(n_big):
         cases.append(gen_random(r, r.randint(800, 2500), r.choice([30, 500, 100000]), r.random() < 0.5,
                                 p_ins=r.choice([0.45, 0.55])))
+    cases = nullify(ctx.rng("nullmode", seed), cases)
     if seed == ctx.seed:
         cases += exhaustive(5 if thorough else 4)
+        cases += exhaustive(4, null=True)
     return cases
 
 
 def targeted(ctx):
     r = ctx.rng("targeted")
-    out = exhaustive(4)
+    out = exhaustive(4) + exhaustive(3, null=True)
     for h in range(2, 9):
         for flip in (False, True):
             out.append(gen_fib(r, h, flip, True))
@@ -465,6 +487,32 @@ def stats(cases, impl):
                         name = "root_" + name
                     rm[name] += 1
     d["op_results"] = cnt
+    # NULL-element mode (policy d?z): what happened to the element stored as the NULL pointer
+    nz = {"cases": 0, "cases_with_a_NULL_element": 0, "removed": 0, "removed_as_last_element": 0, "present_at_free": 0}
+    for c, l in zip(cases, impl):
+        t = c.split()
+        if not t or "z" not in t[0]:
+            continue
+        nz["cases"] += 1
+        obs = l.split(" || ")[0].split()
+        k, null_id, had = 0, -1, False
+        nid = 0
+        for op in t[1:]:
+            if k >= len(obs):
+                break
+            tok = obs[k]
+            k += 2 if op[0] == "f" else 1
+            if op[0] in "iI":
+                if op[1:] == "0" and null_id < 0 and tok.startswith("i:OK:"):
+                    null_id, had = nid, True
+                nid += 1
+            elif op[0] == "r" and null_id >= 0 and op[1:] == str(null_id) and tok.startswith("r:OK"):
+                nz["removed"] += 1
+                nz["removed_as_last_element"] += tok.endswith(":s0")
+                null_id = -1
+        nz["cases_with_a_NULL_element"] += had
+        nz["present_at_free"] += null_id >= 0
+    d["null_element_mode"] = nz
     # parent-link sweeps (token L<id>next.../<id>prev...): sweeps and single next/prev steps compared with the
     # pointer-level model
     sweeps = steps = biggest = 0
